@@ -693,6 +693,8 @@ func c04(r *Run) {
 	regFreePairings(r, "", "after a sequence of registrations a lookup by a name does not give the template most recently registered under that name", 4, r.N(3000, 100000))
 	// --- a Parse that FAILED leaves nothing behind: the next Parse of a well-formed source yields that source's tree ---
 	c04AfterFailedParse(r)
+	// --- the file entry point: ParseFile(name) is Parse(what the file holds now) ---
+	parseFileRel(r, "")
 }
 
 // c04AfterFailedParse: "Parsing a source always yields a tree that renders that source, regardless of which templates
